@@ -924,6 +924,14 @@ class BptkServer(Flask):
             resp.headers['Access-Control-Allow-Origin'] = '*'
             return resp
 
+        released = []
+
+        def release():
+            # the lock taken above is released exactly once, whichever way the stream ends
+            if not released:
+                released.append(True)
+                instance.unlock()
+
         def streamer():
             try:
                 yield "["
@@ -947,13 +955,13 @@ class BptkServer(Flask):
                 pass
             finally:
                 # release the lock when the stream ends: by completion, by error or because the client went away
-                instance.unlock()
+                release()
             if self._external_state_adapter != None:
                 self._external_state_adapter.save_instance(self._instance_manager._get_instance_state(instance_uuid))
 
         resp = Response(streamer())
         # also covers a client that disconnects before the stream has been started
-        resp.call_on_close(instance.unlock)
+        resp.call_on_close(release)
         resp.headers['Content-Type'] = 'application/json'
         resp.headers['Access-Control-Allow-Origin'] = '*'
         return resp
